@@ -17,6 +17,7 @@ type GenOpts struct {
 	MaxInput   int
 	NoRefs     bool
 	Trims      bool
+	RefTrims   bool // trimming the reference semantics can follow: restricted operands (see genRefTrim)
 	Skeleton   bool  // recursion skeleton first (direct / hidden / indirect ring)
 	LRFree     bool  // repair left recursion away (C03)
 	Share      bool  // bias towards several references to one rule at one position (cache hits)
@@ -24,6 +25,8 @@ type GenOpts struct {
 	Suppress   bool  // combinator.SuppressError wrappers
 	MemoLeaves bool  // Memoize wrappers also around terminals and references ("any sub-parser")
 	Single     bool  // combinator.Single wrappers (C07 only: it changes tree shapes)
+	SeqOpts    bool  // .HandleResult(ReturnSingle()) and .Token(...) on sequence-like nodes
+	RuleNames  bool  // some rules are Memoize(body).Name(...): the name wrapper sits outside the memoization
 	NearMiss   bool  // prefer sentences of the grammar with one byte changed / inserted / deleted / appended
 }
 
@@ -173,6 +176,9 @@ func GenGrammar(t *rapid.T, o GenOpts) *Grammar {
 			if o.Trims {
 				kinds = append(kinds, KLTrim, KRTrim, KRTrim)
 			}
+			if o.RefTrims {
+				kinds = append(kinds, kRefTrim, kRefTrim, kRefTrim)
+			}
 			if o.Suppress {
 				kinds = append(kinds, KSuppress)
 			}
@@ -181,6 +187,9 @@ func GenGrammar(t *rapid.T, o GenOpts) *Grammar {
 			}
 		}
 		k := kinds[rapid.IntRange(0, len(kinds)-1).Draw(t, "kind")]
+		if k == kRefTrim {
+			return genRefTrim(t, func() *Expr { return gen(nt, depth+2, neg) }, term)
+		}
 		e := &Expr{K: k}
 		switch k {
 		case KTerm:
@@ -231,6 +240,14 @@ func GenGrammar(t *rapid.T, o GenOpts) *Grammar {
 		}
 		if o.ExtraMemo > 0 && rapid.IntRange(0, o.ExtraMemo-1).Draw(t, "memo") == 0 {
 			e.Memo = true
+		}
+		if o.SeqOpts && isSeqLike(k) {
+			if rapid.IntRange(0, 5).Draw(t, "returnsingle") == 2 {
+				e.RS = true
+			}
+			if rapid.IntRange(0, 7).Draw(t, "token") == 3 {
+				e.Tok = rapid.SampledFrom([]string{"T1", "T2", "SEQ"}).Draw(t, "tokname")
+			}
 		}
 		if o.Names && (k == KAny || k == KChoice || k == KSeqOf) && rapid.Bool().Draw(t, "named") {
 			e.Name = fmt.Sprintf("n%d", rapid.IntRange(0, 9).Draw(t, "nameid"))
@@ -317,6 +334,17 @@ func GenGrammar(t *rapid.T, o GenOpts) *Grammar {
 			}
 		}
 	}
+	if o.RuleNames {
+		g.RuleNames = make([]string, n)
+		for i := range g.RuleNames {
+			// only where the body never returns a result together with an error (Optional does, and a
+			// name wrapper then drops the result: outside the listed properties)
+			k := g.Rules[i].K
+			if (k == KAny || k == KChoice || k == KTerm || isSeqLike(k)) && rapid.IntRange(0, 2).Draw(t, "rulename") == 1 {
+				g.RuleNames[i] = fmt.Sprintf("rule%d", i)
+			}
+		}
+	}
 	fixRepetitions(g, t, o.Alphabet)
 	if o.LRFree {
 		fixLeftRecursion(g, t, o.Alphabet)
@@ -328,6 +356,51 @@ func GenGrammar(t *rapid.T, o GenOpts) *Grammar {
 
 // GenInput draws an input: uniform over the alphabet, a sentence sampled from the grammar
 // by a random derivation, or a one-byte mutation of such a sentence.
+// kRefTrim is a generator-only pseudo kind (never stored in an Expr).
+const kRefTrim Kind = 200
+
+// genRefTrim draws a trimmed expression whose meaning is the documented one without any doubt:
+// LeftTrim/RightTrim around a terminal (any mode), around Empty, or around a sequence / a set of
+// alternatives of fresh nodes (RightTrim then only in the never-failing mode, as a parser with
+// several results is judged by its last result only). The operand never is an Optional (which
+// returns its error together with the EMPTY node: the trimming parsers then leave the whitespace
+// alone) and never passes a memoized node through (known finding KF-1: RightTrim moves its
+// operand's end in place).
+func genRefTrim(t *rapid.T, sub func() *Expr, term func() *Expr) *Expr {
+	mode := func() int { return rapid.SampledFrom([]int{0, 1, 1, 2, 2, 2, 3}).Draw(t, "wsmode") }
+	fresh := func() (e *Expr, single bool) {
+		switch rapid.IntRange(0, 5).Draw(t, "trimOperand") {
+		case 0:
+			return &Expr{K: KEmpty}, true
+		case 1: // a sequence node of its own around anything
+			return &Expr{K: KSeqOf, Kids: []*Expr{sub()}}, false
+		case 2:
+			return &Expr{K: KSeqOf, Kids: []*Expr{term(), sub()}}, false
+		case 3: // the shape of an optional separator
+			return &Expr{K: KChoice, Kids: []*Expr{term(), {K: KEmpty}}}, true
+		case 4:
+			return &Expr{K: KAny, Kids: []*Expr{term(), {K: KSeqOf, Kids: []*Expr{term(), term()}}}}, false
+		}
+		return term(), true
+	}
+	op, single := fresh()
+	switch rapid.IntRange(0, 3).Draw(t, "trimSide") {
+	case 0:
+		return &Expr{K: KLTrim, Mode: mode(), Kids: []*Expr{op}}
+	case 1, 2:
+		m := 2
+		if single {
+			m = mode()
+		}
+		return &Expr{K: KRTrim, Mode: m, Kids: []*Expr{op}}
+	}
+	m := 2
+	if single {
+		m = mode()
+	}
+	return &Expr{K: KRTrim, Mode: m, Kids: []*Expr{{K: KLTrim, Mode: mode(), Kids: []*Expr{op}}}}
+}
+
 func GenInput(t *rapid.T, g *Grammar, o GenOpts) string {
 	kind := rapid.IntRange(0, 3).Draw(t, "inkind")
 	if o.NearMiss {
